@@ -24,6 +24,7 @@ type Env struct {
 	useVars bool            // resolve source variables through DebugRef tracking (loop invariants)
 	pkg     *types.Package
 	callArg bool // names shadow everything (callee contract evaluated at a call site)
+	closed  bool // the result must be a closed term over bound variables (spec func body, quantifier body)
 }
 
 var (
@@ -504,6 +505,7 @@ func (env *Env) call(n *ast.CallExpr) *Val {
 				}
 				bs = append(bs, fmt.Sprintf("(%s %s)", bn, srt))
 				ne = ne.with(v, &Val{T: bn, Ty: ty})
+				ne.closed = true
 			}
 			body := ne.eval(n.Args[len(n.Args)-1])
 			return &Val{T: fmt.Sprintf("(%s (%s) %s)", id.Name, strings.Join(bs, " "), body.T), Ty: tBool}
@@ -717,6 +719,7 @@ func (e *Engine) declareSpecFunc(sf *SpecFunc) {
 	f := quoteSym("spec$" + sf.Name)
 	var ps, psorts []string
 	benv := env
+	benv.closed = true
 	for _, p := range sf.Params {
 		s, t := e.specSort(env, p.Sort)
 		bn := quoteSym("a$" + p.Name)
@@ -856,8 +859,27 @@ func (env *Env) goCallVals(fn *ssa.Function, args []*Val) *Val {
 	if !ok {
 		specErr("spec call to %s is not pure/mergeable", fn.String())
 	}
-	// splice merged definitions into the live path state
-	sink.items = merged
+	if env.closed {
+		// definitions may mention bound variables: substitute them back
+		var defs, decls []string
+		for p := merged; p != nil && p != at; p = p.prev {
+			if strings.HasPrefix(p.cmd, "(declare-const ") {
+				decls = append(decls, p.cmd)
+			} else {
+				defs = append(defs, p.cmd)
+			}
+		}
+		for i, r := range res {
+			t := inlineDefs(r.T, defs, decls)
+			if t == "" {
+				specErr("spec call to %s under a binder depends on a non-definitional value", fn.String())
+			}
+			res[i] = &Val{T: t, Ty: r.Ty}
+		}
+	} else {
+		// splice merged definitions into the live path state
+		sink.items = merged
+	}
 	if len(res) == 1 {
 		return res[0]
 	}
